@@ -478,5 +478,84 @@ fn main() {
             }
         }
     }
+    // ---- packet 20 (GnuPG / LibrePGP OCB encrypted data), read when the caller opts in.  The library has no producer for it:
+    //      containers are built here from the primitive (AeadAlgorithm::encrypt_in_place) and tied to the model's encryptor;
+    //      chunk-size octets 0 (64 octets), 2 and 16 (GnuPG's default, 4 MiB); every bit of every header field, and the usual
+    //      stream tamperings; decrypted through Message::decrypt_the_ring with the session key in hand
+    {
+        use pgp::bytes::BytesMut;
+        use pgp::composed::{DecryptionOptions, Message, PlainSessionKey, TheRing};
+        let seal = |aead: AeadAlgorithm, sym: SymmetricKeyAlgorithm, key: &[u8], nonce: &[u8], ad: &[u8], data: &[u8]| -> Option<Vec<u8>> { let mut b = BytesMut::from(data); aead.encrypt_in_place(&sym, key, nonce, ad, &mut b).ok()?; Some(b.to_vec()) };
+        let lit = |m: &[u8]| -> Vec<u8> { let mut b = vec![b'b', 0, 0, 0, 0, 0]; b.extend_from_slice(m); let mut p = vec![0xCB]; let n = b.len(); if n < 192 { p.push(n as u8); } else if n < 8384 { p.push(((n - 192) >> 8) as u8 + 192); p.push(((n - 192) & 0xff) as u8); } else { p.push(255); p.extend((n as u32).to_be_bytes()); } p.extend(b); p };
+        let frame20 = |body: &[u8]| -> Vec<u8> { let mut p = vec![0xD4]; let n = body.len(); if n < 192 { p.push(n as u8); } else if n < 8384 { p.push(((n - 192) >> 8) as u8 + 192); p.push(((n - 192) & 0xff) as u8); } else { p.push(255); p.extend((n as u32).to_be_bytes()); } p.extend_from_slice(body); p };
+        let decrypt = |container: &[u8], key: &[u8], consumer: u8, reqs: &[usize]| -> String {
+            let r = guarded(|| -> Result<(Vec<u8>, Result<(), String>), String> {
+                let m = Message::from_bytes(container).map_err(|e| e.to_string())?;
+                let ring = TheRing { session_keys: vec![PlainSessionKey::V5 { key: key.to_vec().into() }], decrypt_options: DecryptionOptions::new().enable_gnupg_aead(), ..Default::default() };
+                let (d, _) = m.decrypt_the_ring(ring, true).map_err(|e| e.to_string())?;
+                Ok(match consumer { 0 => consume_to_end(d), _ => consume_read(d, reqs) })
+            });
+            match r { Ok(Ok((o, Ok(())))) => format!("OK {}", hx(&o)), Ok(Ok((o, Err(_)))) => format!("ERR {}", hx(&o)), Ok(Err(_)) => "ERR -".into(), Err(p) => p }
+        };
+        // (the library reads packet 20 with OCB only; the other mode octets are covered as tamperings)
+        let cfgs: Vec<(u8, u8, u8)> = if thorough { vec![(7, 2, 0), (9, 2, 0), (8, 2, 1), (7, 2, 2), (8, 2, 16), (7, 2, 16), (9, 2, 16)] } else { vec![(7, 2, 0), (9, 2, 0), (7, 2, 16)] };
+        for (symo, aeado, cs) in cfgs {
+            let sym = sym_of(symo); let aead = match aeado { 1 => AeadAlgorithm::Eax, 2 => AeadAlgorithm::Ocb, _ => AeadAlgorithm::Gcm };
+            let key = cx.rng.bytes(key_len(symo)); let iv = cx.rng.bytes(aead.nonce_size());
+            let chunk = 1usize << (cs as usize + 6);
+            let lens: Vec<usize> = if chunk <= 256 { vec![0, 1, chunk - 9, chunk - 8, chunk - 7, 2 * chunk - 8, 2 * chunk, 3 * chunk + 5] } else { vec![0, 25, 300] };
+            for (li, n) in lens.into_iter().enumerate() {
+                let payload_v = cx.rng.bytes(n); let payload = &payload_v[..];
+                let inner = lit(payload);
+                // chunks, then the final tag
+                let mut ct = Vec::new(); let mut idx = 0u64; let mut ok = true;
+                let nonce_of = |i: u64| -> Vec<u8> { let mut v = iv.clone(); let l = v.len(); for (j, b) in i.to_be_bytes().iter().enumerate() { v[l - 8 + j] ^= b; } v };
+                for piece in inner.chunks(chunk) {
+                    let mut ad = vec![0xD4, 1, symo, aeado, cs]; ad.extend(idx.to_be_bytes());
+                    match seal(aead, sym, &key, &nonce_of(idx), &ad, piece) { Some(c) => ct.extend(c), None => { ok = false; } }
+                    idx += 1;
+                }
+                let mut ad = vec![0xD4, 1, symo, aeado, cs]; ad.extend(idx.to_be_bytes()); ad.extend((inner.len() as u64).to_be_bytes());
+                match seal(aead, sym, &key, &nonce_of(idx), &ad, &[]) { Some(c) => ct.extend(c), None => { ok = false; } }
+                if !ok { cx.out.case("", &[], &["gnupg".into(), symo.to_string(), aeado.to_string(), cs.to_string()], "primitive refused", Some(false), "gnupg-unavailable"); continue; }
+                // the harness's encryptor = the model's
+                cx.out.case("genc", &[symo.to_string(), aeado.to_string(), cs.to_string(), hx(&key), hx(&iv), hx(&inner)], &[], &hx(&ct), None, "gnupg-framer-tie");
+                let container = |ver: u8, s: u8, a: u8, c: u8, ivv: &[u8], ctt: &[u8]| -> Vec<u8> { let mut b = vec![ver, s, a, c]; b.extend_from_slice(ivv); b.extend_from_slice(ctt); frame20(&b) };
+                let mut run = |cx: &mut Ctx, ver: u8, s: u8, a: u8, c: u8, ivv: &[u8], ctt: &[u8], tampered: bool, cls: &str| {
+                    let (_, consumer, reqs) = cx.sched(chunk.min(4096));
+                    let cont = container(ver, s, a, c, ivv, ctt);
+                    let raw = decrypt(&cont, &key, consumer, &reqs);
+                    // (the message layer hands out the literal's payload; the model the decrypted packet stream)
+                    // a modified container never ends cleanly; whatever it released before the error is a prefix of the truth
+                    let pred = if !tampered { raw == format!("OK {}", hx(payload)) } else if let Some(rel) = raw.strip_prefix("ERR ") { let rel = unhx(rel); rel.len() <= payload.len() && payload[..rel.len()] == rel[..] } else { false };
+                    let imp = if let Some(o) = raw.strip_prefix("OK ") { format!("OK {}", hx(&lit(&unhx(o)))) } else if raw.starts_with("ERR") { "ERR".to_string() } else { raw };
+                    // the model is asked when cipher and mode are the honest ones (the oracle answers for those)
+                    let op = if s == symo && a == aeado { "gdec" } else { "" };
+                    cx.out.case(op, &[ver.to_string(), s.to_string(), a.to_string(), c.to_string(), hx(&key), hx(ivv), hx(ctt), consumer.to_string(), nums(&reqs)],
+                        &["gnupg".into(), hx(&cont[..cont.len().min(3000)]), hx(&key), consumer.to_string(), nums(&reqs)], &imp, Some(pred), cls);
+                };
+                run(&mut cx, 1, symo, aeado, cs, &iv, &ct, false, &format!("gnupg-cs{cs}-untouched"));
+                // every bit of every header field
+                if li < 3 || thorough {
+                    for bit in 0..8u8 {
+                        run(&mut cx, 1 ^ (1 << bit), symo, aeado, cs, &iv, &ct, true, &format!("gnupg-cs{cs}-version-bit"));
+                        run(&mut cx, 1, symo ^ (1 << bit), aeado, cs, &iv, &ct, true, &format!("gnupg-cs{cs}-cipher-bit"));
+                        run(&mut cx, 1, symo, aeado ^ (1 << bit), cs, &iv, &ct, true, &format!("gnupg-cs{cs}-mode-bit"));
+                        run(&mut cx, 1, symo, aeado, cs ^ (1 << bit), &iv, &ct, true, &format!("gnupg-cs{cs}-chunk-size-bit"));
+                    }
+                    for o in 0..iv.len() { for bit in [0u8, 7] { let mut v = iv.clone(); v[o] ^= 1 << bit; run(&mut cx, 1, symo, aeado, cs, &v, &ct, true, &format!("gnupg-cs{cs}-iv-bit")); } }
+                }
+                // the stream: bit flips, truncation, a chunk dropped / doubled / swapped, the final tag dropped
+                for _ in 0..6 { let mut v = ct.clone(); let i = cx.rng.below(v.len() as u64) as usize; v[i] ^= 1 << cx.rng.below(8); run(&mut cx, 1, symo, aeado, cs, &iv, &v, true, &format!("gnupg-cs{cs}-bitflip")); }
+                for cut in [1usize, 16, 17] { if ct.len() > cut { run(&mut cx, 1, symo, aeado, cs, &iv, &ct[..ct.len() - cut], true, &format!("gnupg-cs{cs}-truncate")); } }
+                let ec = chunk + 16;
+                if ct.len() >= 2 * ec + 16 {
+                    let mut v = ct.clone(); v.drain(..ec); run(&mut cx, 1, symo, aeado, cs, &iv, &v, true, &format!("gnupg-cs{cs}-chunk-dropped"));
+                    let mut v = ct[..ec].to_vec(); v.extend_from_slice(&ct); run(&mut cx, 1, symo, aeado, cs, &iv, &v, true, &format!("gnupg-cs{cs}-chunk-doubled"));
+                    let mut v = ct.clone(); let (a, b) = v.split_at_mut(ec); a.swap_with_slice(&mut b[..ec]); run(&mut cx, 1, symo, aeado, cs, &iv, &v, true, &format!("gnupg-cs{cs}-chunks-swapped"));
+                }
+            }
+        }
+    }
     cx.out.finish();
 }
